@@ -323,10 +323,47 @@ def run(tier, v):
         want = {"tcp": "10.99.0.1|45000", "http": "probe-srv", "tls": "probe.example"}[pl["crate"]]
         if want not in txt:
             v.violation({"entry": "pool " + pl["crate"], "workers": pl["workers"], "observed": "the probe connection dispatched after the mutated frames produced no result (worker dead or state poisoned)"})
+    # ---- capture files through analyze_pcap of the four analyzers (each on a thread of its own, 5 s watchdog): every truncation of
+    # a valid capture file (every octet count in thorough, every record boundary +-2 and a stride otherwise), every octet of the file
+    # header and of the first two record headers overwritten (0, 255, top bit flipped), and the files MC_X04 generates (Capture.tla)
+    from props import x04
+    cframes = [bytes(f) for f in json.load(open(x04.frames_input(wd)))["eth"]]
+    files = []
+    for order, magic in (("<", 0xa1b2c3d4), (">", 0xa1b23c4d)):
+        whole = x04.capture_bytes(cframes, order, magic)
+        bounds, at = set(), 24
+        for f_ in cframes:
+            bounds |= {at + d for d in (-2, -1, 0, 1, 2, 8, 15, 16, 17)}
+            at += 16 + len(f_)
+        cuts = range(len(whole) + 1) if tier == "thorough" else sorted({n for n in bounds if 0 <= n <= len(whole)} | set(range(0, len(whole), 23)) | {len(whole) - 1})
+        files += [whole[:n] for n in cuts]
+        second = 24 + 16 + len(cframes[0])
+        for off in list(range(24 + 16)) + list(range(second, second + 16)):
+            for val in (0, 255, whole[off] ^ 0x80):
+                if val != whole[off]:
+                    files.append(whole[:off] + bytes([val]) + whole[off + 1:])
+    xcases = []
+    vlib.tlc("MC_X04", pid=PID, workers=8, env={"FRAMES": x04.frames_input(wd)}, timeout=900, coverage=False, tag_sink=lambda tag, o: xcases.append(bytes(o["file"])) if tag == "REPLAY" else None)
+    files += sorted(set(xcases))
+    cap_lines = [{"id": k, "crate": crate, "file": fb.hex(), "matcher": True, "cfg": {}, "frames": []} for k, (fb, crate) in enumerate((fb, c) for fb in files for c in ("tcp", "http", "tls", "uni"))]
+    creq, cout = os.path.join(wd, "capture.req"), os.path.join(wd, "capture.out")
+    vlib.write_ndjson(creq, cap_lines)
+    vlib.run_hv_split("ana", creq, cout, parts=8, timeout=3000, env={"HV_PCAP_DIR": os.path.join(wd, "pcap")})
+    for o in vlib.read_ndjson(cout):
+        ln = cap_lines[o["id"]]
+        if o.get("skipped"):
+            continue
+        n_inputs += 1
+        n_ok += o.get("ok") is True
+        n_err += o.get("ok") is False
+        if "panic" in o:
+            v.violation({"entry": "analyze_pcap (%s)" % ln["crate"], "capture_file": ln["file"], "observed": "panic: %s" % o["panic"]})
+        elif o.get("hung"):
+            v.violation({"entry": "analyze_pcap (%s)" % ln["crate"], "capture_file": ln["file"], "observed": "no return within 5 s (watchdog); %d results had arrived" % len(o["results"])})
     return v.finish("exploration", {
         "evaluations": n_inputs, "distinct_nontrivial": n_ok,
-        "rule": "inputs: %d TCP option encodings, %d HTTP/2 frame shapes (type x flags x stream x length x first byte x declared-length error) and %d ClientHello length-field errors from MC_C01, all truncations / bit flips / byte overwrites (every value for parser-level seeds) of %d seeds, database text mutations; entry points tcp, http, tls, unified, filter, hash, reader, extractor, one-shot parsers, database loader, pools; "
-                "a probe every 50 inputs; non-trivial = calls that returned a value (%d returned an error value)" % (len(optframes), len(h2shapes), len(tlsshapes), sum(len(s) for s in seeds.values()), n_err),
+        "rule": "inputs: %d TCP option encodings, %d HTTP/2 frame shapes (type x flags x stream x length x first byte x declared-length error) and %d ClientHello length-field errors from MC_C01, all truncations / bit flips / byte overwrites (every value for parser-level seeds) of %d seeds, database text mutations, %d capture files (truncations, header corruptions, MC_X04); entry points tcp, http, tls, unified, filter, hash, reader, extractor, one-shot parsers, database loader, pools, analyze_pcap; "
+                "a probe every 50 inputs; non-trivial = calls that returned a value (%d returned an error value)" % (len(optframes), len(h2shapes), len(tlsshapes), sum(len(s) for s in seeds.values()), len(files), n_err),
         "samples": [{"entry": "tcp", "input": inputs["frame"][0].hex()}, {"entry": "db", "input": lines[-1]["inputs"][0][:200]}],
         "states": r.distinct, "transitions": r.generated, "traces_validated_against_impl": len(lines),
     }, ["panics are caught with catch_unwind in the harness (built with overflow checks on); hangs by a 5 s watchdog", "probe connections use fresh endpoints for every round; their reported endpoints are masked in the comparison",
